@@ -60,6 +60,11 @@ def gen(rng, tier):
     extra = rng.choice([None, None, 'enter_room', 'leave_room', 'emit'])
     if extra and not cfg['lines']:
         actions.insert(rng.randrange(len(actions) + 1), 'x_' + extra)
+    # the OTHER client of the namespace is in the middle of being
+    # disconnected by the server (its disconnect handler takes a while) when
+    # the concurrent terminations of this one start; it completes after them
+    # (two DIFFERENT clients racing inside the manager is not this property)
+    cfg['by_leaving'] = cfg['bystander'] and rng.random() < 0.5
     return {'cfg': cfg, 'actions': actions}
 
 
@@ -117,9 +122,14 @@ def _run(case, cfg, w):
     srv = w.add_server('s', async_handlers=True)
 
     def plan(label, args, ev):
+        if label[3] == 'disconnect' and args and \
+                args[0] in by_sids.values():
+            return [('pause', 0.05), ('ret', None)]
         if label[3] == 'disconnect' and cfg['handler_pause']:
             return [('pause', 0.001), ('ret', None)]
         return [('ret', None)]
+    by_sids = {}
+    by_ended = set()
     nss = ['/', '/a'] if cfg['two_ns'] else ['/']
     for ns in nss:
         for evn in ('connect', 'disconnect'):
@@ -143,6 +153,7 @@ def _run(case, cfg, w):
         for ns in nss:
             other.send_pkt(sio.CONNECT, ns, None, None)
             w.settle()
+            by_sids[ns] = other.rx[-1]['pkt'].data['sid']
             if cfg['rooms']:
                 srv.enter_room(other.rx[-1]['pkt'].data['sid'], 'r1',
                                namespace=ns)
@@ -158,6 +169,12 @@ def _run(case, cfg, w):
             w.settle()
         first.sever(0.0)
         w.settle()
+    if cfg.get('by_leaving') and '/' in by_sids:
+        w.call(srv.disconnect, by_sids['/'], namespace='/',
+               _label=('disconnect-bystander',))
+        by_ended.add('/')
+        w.settle(horizon=0.01)     # ... its handler is now taking its time
+        w.rec.count('app.other_client_mid_disconnect')
     eio_sid = peer.eio_sid
     # from here on every manager / transport access is a pre-emption point
     real_manager = srv.manager
@@ -269,6 +286,17 @@ def _run(case, cfg, w):
         for pns, lst in real_manager.pending_disconnect.items():
             if sid in lst:
                 add('residue_pending_mark', (sid, pns))
+    for ns in by_ended:
+        bs = by_sids[ns]
+        runs = [e for e in w.rec.of('h_enter')
+                if e['label'][3] == 'disconnect' and e['args'][0] == bs]
+        if len(runs) != 1:
+            add('disconnect_handler_count', 'the other client %s [%s], '
+                'disconnected once by the server meanwhile: handler ran %d '
+                'times' % (bs, ns, len(runs)),
+                'bystander:got%d' % min(len(runs), 2))
+        if real_manager.is_connected(bs, ns) or srv.rooms(bs, ns):
+            add('residue_connected', ('bystander', bs, ns))
     if transport_ended:
         if eio_sid in srv.environ:
             add('residue_environ', eio_sid)
